@@ -4,7 +4,37 @@ from .mir import op_place, callee_matches
 from .sym import Sym, render
 
 
-def facts_at(body, sym, facts, bb, unwind=False):
+def _resolve_bool_local(body, sym, facts, l, val, unwind, depth):
+    defs = body.defs_of(l)
+    consts = {}
+    for d in defs:
+        if d[0] != "assign" or "use" not in d[3]:
+            return []
+        c = d[3]["use"].get("const")
+        if c is None or "v" not in c or c["v"] not in (0, 1):
+            return []
+        if c["v"] in consts:
+            return []
+        consts[c["v"]] = d[1]
+    if set(consts) != {0, 1}:
+        return []
+    f1 = facts_at(body, sym, facts, consts[1], unwind, depth)
+    f0 = facts_at(body, sym, facts, consts[0], unwind, depth)
+    k0 = {(f["switch"], str(f["val"])) for f in f0}
+    extra = [f for f in f1 if (f["switch"], str(f["val"])) not in k0]
+    if len(extra) != 1:
+        return []
+    f = extra[0]
+    # the false-arm must come from the same switch
+    sw0 = [x for x in f0 if x["switch"] == f["switch"]]
+    if val is True:
+        return [dict(f, text=f["text"] + " (via bool local)")]
+    if sw0:
+        return [dict(x, text=x["text"] + " (via bool local)") for x in sw0]
+    return []
+
+
+def facts_at(body, sym, facts, bb, unwind=False, _depth=0):
     """Symbolic facts that hold on every path reaching block bb.
     Each fact: {'expr': sym-expr, 'val': True|False|variant-name|('not', [names])|int, 'text': str, 'switch': bb}"""
     out = []
@@ -29,6 +59,10 @@ def facts_at(body, sym, facts, bb, unwind=False):
                 e = e[2]
                 val = not val
             out.append({"expr": e, "val": val, "text": "%s is %s" % (render(e), val), "switch": s})
+            # `matches!`-style idiom: a bool local assigned `true` on one arm of a switch and `false` on the others
+            if e[0] == "local" and _depth < 3:
+                for g2 in _resolve_bool_local(body, sym, facts, e[1], val, unwind, _depth + 1):
+                    out.append(g2)
         elif e[0] == "discr":
             base = e[1]
             # find the enum type of the place whose discriminant was read
@@ -60,6 +94,8 @@ def _variants_for_discr(body, facts, term, s):
     for d in body.defs_of(p["l"]):
         if d[0] == "assign" and "discr" in d[3]:
             pl = d[3]["discr"]
+            if d[3].get("variants"):
+                return {int(k): v for k, v in d[3]["variants"].items()}
             ty = d[3].get("ty") or place_ty_guess(body, pl)
             if ty:
                 return enum_variants(facts, ty)
